@@ -1,12 +1,14 @@
 #!/bin/sh
-# usage: tools/try_mutant.sh <patch.diff> <ID> [tier]   — apply a seeded change to /repo, run the check, undo it.
+# usage: tools/try_mutant.sh <patch.diff> <ID> [tier]   — apply a seeded change to the repository under test (/repo, or the
+# snapshot named by SIMWORLD_REPO inside `vp run --with-repo`), run the check, undo it.
 set -u
 PATCH=$(readlink -f "$1"); ID=$2; TIER=${3:-quick}
-cd /verif
-if ! git -C /repo diff --quiet; then echo "/repo is dirty, refusing"; exit 3; fi
-git -C /repo apply "$PATCH" || { echo "patch does not apply"; exit 3; }
+R=${SIMWORLD_REPO:-/repo}
+cd "$(dirname "$(readlink -f "$0")")/.."
+if ! git -C $R diff --quiet; then echo "$R is dirty, refusing"; exit 3; fi
+git -C $R apply "$PATCH" || { echo "patch does not apply"; exit 3; }
 ./check "$ID" --tier "$TIER" 2>&1 | grep -a -v "^$" | tail -12
 RC=$?
-git -C /repo checkout -- . 
-git -C /repo status --short | grep -v '^??' 
+git -C $R checkout -- . 
+git -C $R status --short | grep -v '^??' 
 exit 0
